@@ -216,11 +216,9 @@ Definition ppu_kind (k : N) : N :=
   else if k =? 18 then 6 else if k =? 19 then 2 else if (k =? 20) || (k =? 21) then 3
   else if k =? 25 then 4 else if k =? 26 then 5 else 0.
 Definition ppval_kind_ok (k : N) (v : ppval) : bool :=
-  match v, ppu_kind k with
-  | PInt _, 0 | PRat _, 1 | PPrices _ _, 2 | PUnits _ _, 3 => true
-  | PThresholds l, 4 => (length l =? 5)%nat
-  | PThresholds l, 5 => (length l =? 10)%nat
-  | _, _ => false
+  match v with
+  | PInt _ => ppu_kind k =? 0 | PRat _ => ppu_kind k =? 1 | PPrices _ _ => ppu_kind k =? 2 | PUnits _ _ => ppu_kind k =? 3
+  | PThresholds l => ((ppu_kind k =? 4) && (length l =? 5)%nat) || ((ppu_kind k =? 5) && (length l =? 10)%nat)
   end.
 Definition ppu := list (option ppval).      (* aligned with ppu_keys *)
 Fixpoint ppu_wf_at (ks : list N) (u : ppu) : bool :=
